@@ -106,14 +106,18 @@ var c10Keys = map[string]c10Key{
 	"no-passphrase":               {file: "privkey.asc", pub: "pubkey", wantFail: true},
 	"multiple-keys":               {file: "multiple_privkeys.asc", pub: "pubkey", wantFail: true},
 	"keyid-invalid":               {file: "privkey_unprotected.asc", pub: "pubkey", keyID: "xyz", wantFail: true},
-	"key-missing":                 {file: "no-such-key.asc", pub: "pubkey", wantFail: true},
-	"second":                      {file: "second_priv.asc", pub: "second_pub"},
-	"armored-leading-blank":       {file: "GEN:leading-blank", pub: "pubkey"},
-	"armored-leading-text":        {file: "GEN:leading-text", pub: "pubkey"},
-	"armored-crlf":                {file: "GEN:crlf", pub: "pubkey"},
-	"armored-trailing-text":       {file: "GEN:trailing-text", pub: "pubkey"},
-	"keyid-decimal":               {file: "decimal_priv.asc", pub: "decimal_pub", keyID: "4399095419976992"},
-	"decimal-no-keyid":            {file: "decimal_priv.asc", pub: "decimal_pub"},
+	// a valid id behind garbage, a valid id with something appended, more than 64 bits of hex
+	"keyid-garbage-prefix":  {file: "privkey_unprotected.asc", pub: "pubkey", keyID: "not-a-key-id-bc8acdd415bd80b3", wantFail: true},
+	"keyid-garbage-suffix":  {file: "privkey_unprotected.asc", pub: "pubkey", keyID: "bc8acdd415bd80b3-x", wantFail: true},
+	"keyid-too-long":        {file: "privkey_unprotected.asc", pub: "pubkey", keyID: "ffffbc8acdd415bd80b3", wantFail: true},
+	"key-missing":           {file: "no-such-key.asc", pub: "pubkey", wantFail: true},
+	"second":                {file: "second_priv.asc", pub: "second_pub"},
+	"armored-leading-blank": {file: "GEN:leading-blank", pub: "pubkey"},
+	"armored-leading-text":  {file: "GEN:leading-text", pub: "pubkey"},
+	"armored-crlf":          {file: "GEN:crlf", pub: "pubkey"},
+	"armored-trailing-text": {file: "GEN:trailing-text", pub: "pubkey"},
+	"keyid-decimal":         {file: "decimal_priv.asc", pub: "decimal_pub", keyID: "4399095419976992"},
+	"decimal-no-keyid":      {file: "decimal_priv.asc", pub: "decimal_pub"},
 	// the key file reached through a symbolic link (a mounted secret)
 	"armored-symlink":       {file: "LINK:privkey_unprotected.asc", pub: "pubkey"},
 	"protected-symlink":     {file: "LINK:privkey.asc", pub: "pubkey", givePass: "hunter2", passVar: "FORMAT"},
@@ -126,11 +130,13 @@ var c10Keys = map[string]c10Key{
 	"encrypted-pem-wrong":   {file: "rsa.priv", pub: "rsa.pub", givePass: "nope", passVar: "FORMAT", apk: true, wantFail: true},
 	// an encrypted PEM key whose passphrase begins and ends with a blank (generated at run time from the unprotected key)
 	"encrypted-pem-padded-pass": {file: "GENPEM: hunter2 ", pub: "rsa_unprotected.pub", givePass: " hunter2 ", passVar: "FORMAT", apk: true},
+	// a passphrase that looks like it held references (it is a value, not a template)
+	"encrypted-pem-dollar-pass": {file: "GENPEM:pa$sword-1$x${y}", pub: "rsa_unprotected.pub", givePass: "pa$sword-1$x${y}", passVar: "FORMAT", apk: true},
 	"pem-garbage":               {file: "wrong_key_format.priv", pub: "rsa.pub", apk: true, wantFail: true},
 }
 
-var c10PGPKeys = []string{"armored-symlink", "protected-symlink", "subkey-only-with-passphrase", "armored-with-passphrase", "binary-with-passphrase", "armored-leading-blank", "armored-leading-text", "armored-crlf", "armored-trailing-text", "keyid-decimal", "decimal-no-keyid", "armored", "binary", "protected", "protected-binary", "subkey-only", "keyid-primary", "keyid-subkey", "wrong-passphrase", "no-passphrase", "multiple-keys", "keyid-invalid", "key-missing"}
-var c10APKKeys = []string{"pkcs1-symlink", "encrypted-pem-padded-pass", "pkcs1", "pkcs8", "pkcs8-4096", "encrypted-pem", "encrypted-pem-general", "encrypted-pem-wrong", "pem-garbage"}
+var c10PGPKeys = []string{"armored-symlink", "protected-symlink", "subkey-only-with-passphrase", "armored-with-passphrase", "binary-with-passphrase", "armored-leading-blank", "armored-leading-text", "armored-crlf", "armored-trailing-text", "keyid-decimal", "decimal-no-keyid", "armored", "binary", "protected", "protected-binary", "subkey-only", "keyid-primary", "keyid-subkey", "wrong-passphrase", "no-passphrase", "multiple-keys", "keyid-invalid", "keyid-garbage-prefix", "keyid-garbage-suffix", "keyid-too-long", "key-missing"}
+var c10APKKeys = []string{"pkcs1-symlink", "encrypted-pem-dollar-pass", "encrypted-pem-padded-pass", "pkcs1", "pkcs8", "pkcs8-4096", "encrypted-pem", "encrypted-pem-general", "encrypted-pem-wrong", "pem-garbage"}
 
 // c10Payloads is the number of payload shapes (0 = empty).
 const c10Payloads = 7
@@ -193,6 +199,12 @@ func init() {
 					return
 				}
 				if !yield(C10Case{Format: "deb", Method: "debsign", Key: "armored", Payload: 1, Via: "signfn", SigType: st, FailJ: -1}) {
+					return
+				}
+			}
+			// dpkg-sig takes any role name as type (builder is its default)
+			for _, st := range []string{"builder", "origin", "maint", "archive", "custom"} {
+				if !yield(C10Case{Format: "deb", Method: "dpkg-sig", Key: "armored", Payload: 1, Via: "file", SigType: st, FailJ: -1}) {
 					return
 				}
 			}
